@@ -55,6 +55,8 @@ type GenProfile struct {
 	ReopenSame  bool // reopen keeps the options
 	BatchGets   int  // percentage of Batch.Get among batch ops (default 20)
 	PostCommit  bool // generate calls on the committed batch and empty batches
+	IterCalls   int  // max calls per iterator session (default 8)
+	IterWrites  bool // interleave writes after iterator creation
 }
 
 // ValueLen draws a value length from the size classes, steering some draws at
@@ -156,7 +158,11 @@ func GenOp(t *rapid.T, r *Runner, pool *KeyPool, p *GenProfile) Op {
 	case "emptykey":
 		return Op{K: "emptykey", Which: Pick(t, []string{"put", "put0", "get", "del"}, "which")}
 	case "iter":
-		return Op{K: "iter", Iter: GenIterOp(t, r, pool, 8, false)}
+		n := p.IterCalls
+		if n == 0 {
+			n = 8
+		}
+		return Op{K: "iter", Iter: GenIterOp(t, r, pool, n, p.IterWrites)}
 	}
 	return Op{K: kind}
 }
